@@ -34,6 +34,7 @@ def sh(cmd: str, **kw) -> subprocess.CompletedProcess:
     return subprocess.run(cmd, shell=True, capture_output=True, text=True, **kw)
 
 
+DEMO_ONLY = False
 CHECK_LIST: list[str] = []
 PREVIOUS: dict[str, dict] = {}
 
@@ -48,9 +49,15 @@ def evaluate(kind: str, entry: Path, checks_mode: str, jobs: int, root: Path) ->
         res["error"] = "worktree: " + r.stderr.strip()[-200:]
         return res
     try:
-        env = dict(os.environ, PYTHONPATH=f"{wt}/src")
+        env = dict(os.environ, PYTHONPATH=f"{wt}/src:{wt}")
+        demo = None
         if kind == "seeded" and (entry / "demo.py").exists():
-            res["demo_clean_rc"] = sh(f"cd {wt} && /venv/bin/python {entry}/demo.py", env=env, timeout=600).returncode
+            # the demonstrations were written as <worktree>/SEED/<k>/demo.py and many locate the test helpers relative to that
+            # place: they are run from the same relative location
+            (wt / "SEED" / "1").mkdir(parents=True, exist_ok=True)
+            demo = wt / "SEED" / "1" / "demo.py"
+            shutil.copy(entry / "demo.py", demo)
+            res["demo_clean_rc"] = sh(f"cd {wt} && /venv/bin/python {demo}", env=env, timeout=600).returncode
         a = sh(f"git -C {wt} apply {entry}/patch.diff")
         res["apply_rc"] = a.returncode
         if a.returncode != 0:
@@ -58,8 +65,11 @@ def evaluate(kind: str, entry: Path, checks_mode: str, jobs: int, root: Path) ->
             return res
         t = sh(f"cd {wt} && /venv/bin/python -m pytest -q -p no:cacheprovider -x 2>&1 | tail -3", env=env, timeout=900)
         res["tests_pass"] = "78 passed" in t.stdout
-        if kind == "seeded" and (entry / "demo.py").exists():
-            res["demo_changed_rc"] = sh(f"cd {wt} && /venv/bin/python {entry}/demo.py", env=env, timeout=600).returncode
+        if demo is not None:
+            res["demo_changed_rc"] = sh(f"cd {wt} && /venv/bin/python {demo}", env=env, timeout=600).returncode
+        if DEMO_ONLY:
+            res["verdict"] = "demo confirmed" if res.get("demo_clean_rc") == 0 and res.get("demo_changed_rc") not in (0, None) and res.get("tests_pass") else "DEMO NOT CONFIRMED"
+            return res
         checks = ALL
         if checks_mode == "expected" and kind == "seeded" and (entry / "meta.json").exists():
             m = json.loads((entry / "meta.json").read_text())
@@ -89,6 +99,9 @@ def evaluate(kind: str, entry: Path, checks_mode: str, jobs: int, root: Path) ->
         shutil.rmtree(root / f"ev-{sid}", ignore_errors=True)
         shutil.rmtree(root / "replay", ignore_errors=True)
     res["wall"] = round(time.time() - t0, 1)
+    if DEMO_ONLY:
+        print(f"{kind:7s} {sid}: {res.get('verdict', res.get('error'))} clean={res.get('demo_clean_rc')} changed={res.get('demo_changed_rc')} tests={res.get('tests_pass')}", flush=True)
+        return res
     print(f"{kind:7s} {sid}: {res.get('verdict', res.get('error'))} detected_by={res.get('detected_by')} analysis_errors={res.get('analysis_errors')} ({res['wall']}s)", flush=True)
     return res
 
@@ -101,8 +114,10 @@ def main() -> int:
     ap.add_argument("--checks", default="all")
     ap.add_argument("--out", default=str(VERIF / "selftest" / "corpus_results.json"))
     ap.add_argument("--check-list", default="")
+    ap.add_argument("--demo-only", action="store_true", help="only confirm tests + demonstrations (no checks)")
     a = ap.parse_args()
-    global CHECK_LIST, PREVIOUS
+    global CHECK_LIST, PREVIOUS, DEMO_ONLY
+    DEMO_ONLY = a.demo_only
     CHECK_LIST = [c for c in a.check_list.split(",") if c]
     if CHECK_LIST and Path(a.out).exists():
         PREVIOUS = {r["id"]: r for r in json.loads(Path(a.out).read_text()).get("results", [])}
